@@ -40,6 +40,7 @@ const (
 	hdrSeq     = "X-Verif-Seq"
 	hdrHandler = "X-Verif-Handler"
 	hdrBefore  = "X-Verif-Before"
+	hdrCtx     = "X-Verif-Ctx" // added by before-request: the token found in the context it was handed
 )
 
 type beforeRec struct {
@@ -49,6 +50,7 @@ type beforeRec struct {
 	URL    string `json:"url"`
 	Kind   string `json:"kind"`
 	CurOp  int    `json:"current_operation"` // index of the operation the harness was executing (-1: none)
+	HS     string `json:"latest_handshake_token"` // token of the most recently started Initialize call
 	Failed bool   `json:"returned_error"`
 }
 
@@ -60,6 +62,7 @@ type handlerRec struct {
 	URL       string   `json:"url"`
 	Kind      string   `json:"kind"`
 	CurOp     int      `json:"current_operation"`
+	HS        string   `json:"latest_handshake_token"`
 	Before    []string `json:"before_tags,omitempty"` // X-Verif-Before values already on the request
 	ClientNil bool     `json:"http_client_nil,omitempty"`
 	Err       string   `json:"err,omitempty"`
@@ -85,6 +88,8 @@ type runLog struct {
 	seq     int
 	bef     int
 	curOp   int
+	hs      string          // token of the most recently started Initialize call
+	vetoed  map[string]bool // further context tokens before-request answers with errBoom
 	before  []*beforeRec
 	handler []*handlerRec
 	factory []factoryCall
@@ -112,6 +117,22 @@ func (l *runLog) setCurOp(i int) {
 	l.mu.Unlock()
 }
 
+func (l *runLog) setHandshake(tok string) {
+	l.mu.Lock()
+	l.hs = tok
+	l.mu.Unlock()
+}
+
+// veto makes before-request return errBoom for every request whose context carries tok.
+func (l *runLog) veto(tok string) {
+	l.mu.Lock()
+	if l.vetoed == nil {
+		l.vetoed = map[string]bool{}
+	}
+	l.vetoed[tok] = true
+	l.mu.Unlock()
+}
+
 func peekBody(req *http.Request) []byte {
 	if req.GetBody == nil {
 		return nil
@@ -132,27 +153,31 @@ func (l *runLog) beforeFn(ctx context.Context, req *http.Request) error {
 	l.bef++
 	n := l.bef
 	tok := tokenOf(ctx)
-	rec := &beforeRec{N: n, Token: tok, Method: req.Method, URL: req.URL.String(), Kind: kind, CurOp: l.curOp,
-		Failed: n == l.failAt || (l.vetoToken != "" && tok == l.vetoToken)}
+	rec := &beforeRec{N: n, Token: tok, Method: req.Method, URL: req.URL.String(), Kind: kind, CurOp: l.curOp, HS: l.hs,
+		Failed: n == l.failAt || (l.vetoToken != "" && tok == l.vetoToken) || l.vetoed[tok]}
 	l.before = append(l.before, rec)
 	l.mu.Unlock()
+	// Like a credential / trace injector: ADD this request's values (a request that already carries some
+	// shows them next to its own at the server).
 	req.Header.Add(hdrBefore, strconv.Itoa(n))
+	req.Header.Add(hdrCtx, tok)
 	if rec.Failed {
 		return errBoom
 	}
 	return nil
 }
 
-// failedBefore returns the latest before-request record that returned the error, once one exists.
-func (l *runLog) failedBefore() *beforeRec {
+// failedAfter reports whether a before-request invocation later than the n-th returned the error for a
+// request whose kind satisfies pred.
+func (l *runLog) failedAfter(n int, pred func(kind string) bool) bool {
 	l.mu.Lock()
 	defer l.mu.Unlock()
-	for i := len(l.before) - 1; i >= 0; i-- {
-		if l.before[i].Failed {
-			return l.before[i]
+	for i := len(l.before) - 1; i >= 0 && l.before[i].N > n; i-- {
+		if l.before[i].Failed && pred(l.before[i].Kind) {
+			return true
 		}
 	}
-	return nil
+	return false
 }
 
 func (l *runLog) snapshot() ([]*beforeRec, []*handlerRec, []factoryCall) {
@@ -182,7 +207,7 @@ func (h *recHandler) Handle(ctx context.Context, client *http.Client, req *http.
 	kind, _ := classify(l.client, req.Method, peekBody(req))
 	l.mu.Lock()
 	l.seq++
-	rec := &handlerRec{Seq: l.seq, Label: h.label, Token: tokenOf(ctx), Method: req.Method, URL: req.URL.String(), Kind: kind, CurOp: l.curOp,
+	rec := &handlerRec{Seq: l.seq, Label: h.label, Token: tokenOf(ctx), Method: req.Method, URL: req.URL.String(), Kind: kind, CurOp: l.curOp, HS: l.hs,
 		Before: append([]string{}, req.Header.Values(hdrBefore)...), ClientNil: client == nil}
 	l.handler = append(l.handler, rec)
 	l.mu.Unlock()
